@@ -263,12 +263,22 @@ func init() {
 		}
 		// every stored tuple is a function of (hash index, k): a mixture of two stores is not
 		payload := func(hi int, k uint32) (search.Bound, int, int, eval.Score, board.Move) {
-			depth := int(k % 50)
-			ply := int((k / 50) % 60)
+			// small replacement values (0..12): about half of the stores replace, so that stores to an
+			// occupied slot keep happening throughout the run
+			depth := int(k % 5)
+			ply := int((k / 5) % 5)
 			return search.Bound(k % 2), ply, depth, eval.HeuristicScore(eval.Pawns(float32(k))), // k < 2^20: exact in float32
 				board.Move{From: board.Square(k % 64), To: board.Square((k / 64) % 64), Promotion: board.Piece(k % 7)}
 		}
-		var mixtures, lostHigh int64
+		var mixtures, lostHigh, wentDown int64
+		ownSlot := make([]bool, nh)
+		slotUsers := map[uint64]int{}
+		for hi := range hashes {
+			slotUsers[uint64(hashes[hi])&(entries-1)]++
+		}
+		for hi := range hashes {
+			ownSlot[hi] = slotUsers[uint64(hashes[hi])&(entries-1)] == 1
+		}
 		var wg sync.WaitGroup
 		type rec struct {
 			mu      sync.Mutex
@@ -309,11 +319,21 @@ func init() {
 			go func(rd int) {
 				defer rg.Done()
 				lr := rand.New(rand.NewSource(seed - int64(rd) - 1))
+				lastVal := make([]int, nh)
 				for atomic.LoadInt32(&stop) == 0 {
 					hi := lr.Intn(nh)
 					bound, depth, score, mv, ok := tt.Read(hashes[hi])
 					if !ok {
 						continue
+					}
+					// a slot's replacement value never goes down; seen through one hash that owns its slot
+					if ownSlot[hi] {
+						_, p0, d0, _, _ := payload(hi, uint32(score.Pawns))
+						if v := p0 + 2*d0; v < lastVal[hi] {
+							atomic.AddInt64(&wentDown, 1)
+						} else {
+							lastVal[hi] = v
+						}
 					}
 					// the score names the store (k): every other field must be that store's, and that store
 					// must have been made for this hash
@@ -366,6 +386,51 @@ func init() {
 				}
 			}
 		}
+		// rendezvous phase: the writers meet at a barrier and store to one fresh slot at the same moment,
+		// one of them an entry of high replacement value, the others low ones. If the high store reports
+		// success, no low store may replace it in any interleaving.
+		barrierLost := int64(0)
+		{
+			tb := search.NewTranspositionTable(context.Background(), 1<<22) // 131072 slots, one per round
+			nw := writers
+			if nw < 3 {
+				nw = 3
+			}
+			brounds := 20000
+			var arrived int64
+			deepOK := make([]bool, brounds)
+			var bw sync.WaitGroup
+			for w := 0; w < nw; w++ {
+				bw.Add(1)
+				go func(w int) {
+					defer bw.Done()
+					for rd := 0; rd < brounds; rd++ {
+						atomic.AddInt64(&arrived, 1)
+						for spin := 0; atomic.LoadInt64(&arrived) < int64(nw*(rd+1)); spin++ {
+							if spin&0x3ff == 0x3ff {
+								time.Sleep(0)
+							}
+						}
+						h := board.ZobristHash(uint64(rd) | 0x5bd1e995<<32)
+						if w == 0 {
+							deepOK[rd] = tb.Write(h, search.ExactBound, 0, 10, eval.HeuristicScore(1.5), board.Move{From: board.E2, To: board.E4})
+						} else {
+							tb.Write(h, search.ExactBound, 0, 1, eval.HeuristicScore(-0.25), board.Move{From: board.G1, To: board.F3})
+						}
+					}
+				}(w)
+			}
+			bw.Wait()
+			for rd := 0; rd < brounds; rd++ {
+				_, d, _, _, ok := tb.Read(board.ZobristHash(uint64(rd) | 0x5bd1e995<<32))
+				if deepOK[rd] && (!ok || d != 10) {
+					barrierLost++
+				}
+			}
+			if u := int(math.Round(tb.Used() * float64(tb.Size()>>5))); u != brounds {
+				barrierLost += 1 << 30
+			}
+		}
 		used := int(math.Round(tt.Used() * float64(entries)))
 		res := "ok"
 		switch {
@@ -373,6 +438,12 @@ func init() {
 			res = fmt.Sprintf("MIXTURE lookups-returning-a-tuple-no-single-store-wrote=%d", mixtures)
 		case used != len(occupied):
 			res = fmt.Sprintf("USED reported=%d occupied=%d", used, len(occupied))
+		case barrierLost >= 1<<30:
+			res = "USED rendezvous-phase: fill count differs from the number of occupied slots"
+		case barrierLost > 0:
+			res = fmt.Sprintf("REPLACED-HIGHER entries-of-value-20-replaced-by-a-store-of-value-2=%d", barrierLost)
+		case wentDown > 0:
+			res = fmt.Sprintf("REPLACED-HIGHER lookups-that-saw-the-replacement-value-of-a-slot-decrease=%d", wentDown)
 		case lostHigh > 0:
 			res = fmt.Sprintf("REPLACED-HIGHER slots-whose-entry-is-below-a-successful-store=%d", lostHigh)
 		}
@@ -430,9 +501,9 @@ func init() {
 			m = 60
 		}
 		for i := 0; i < m; i++ {
-			size := []int{64, 1024, 1 << 16}[r.Intn(3)]
-			nh := []int{2, 4, 16, 200}[r.Intn(4)]
-			line := fmt.Sprintf("published ttstress %d %d %d %d %d %d", size, 2+r.Intn(5), 1+r.Intn(4), nh, 30000, r.Int63n(1<<30))
+			size := []int{64, 1024, 1 << 16}[i%3]
+			nh := []int{2, 4, 16, 200}[i%4]
+			line := fmt.Sprintf("published ttstress %d %d %d %d %d %d", size, 3+r.Intn(4), 2+r.Intn(3), nh, 40000, r.Int63n(1<<30))
 			o.do(line)
 			o.Count("tt:stress")
 			o.Nontrivial(line)
